@@ -363,6 +363,7 @@ func checkC08(w *World) {
 	w.ncNameStart(P)
 	w.buildExprVerbatim(P)
 	w.generatedFrontEnd(P, f)
+	w.lexerSetPredicates(P)
 }
 
 // generatedFrontEnd (R08.11-R08.13): three places where the generated lexer/parser and the evaluator's use of the
